@@ -176,7 +176,7 @@ Proof.
   - (* the whole document *)
     assert (toks = []) by (apply (parse_nil_iff [] toks Pp); reflexivity). subst toks.
     cbn [is_nil andb orb]. destruct (dup_value v0 Hv Hs) as (d & Ed & Eq). rewrite Ed.
-    do 2 eexists. split; [reflexivity|]. cbn. split; [reflexivity|]. apply doc_eq_set_key. exact Eq.
+    do 2 eexists. split; [reflexivity|]. cbn. split; [reflexivity|]. apply doc_eq_unnamed. exact Eq.
   - cbn [is_nil andb orb bind].
     apply (add_tail 8 doc p v0 (c0 :: p0) toks); try assumption. discriminate.
 Qed.
@@ -207,7 +207,7 @@ Proof.
   cbn [eval1]. destruct pstr as [|c0 p0].
   - assert (toks = []) by (apply (parse_nil_iff [] toks Pp); reflexivity). subst toks.
     cbn [is_nil andb orb]. destruct (dup_value v0 Hv Hs) as (d & Ed & Eq). rewrite Ed.
-    do 2 eexists. split; [reflexivity|]. cbn. split; [reflexivity|]. apply doc_eq_set_key. exact Eq.
+    do 2 eexists. split; [reflexivity|]. cbn. split; [reflexivity|]. apply doc_eq_unnamed. exact Eq.
   - cbn [is_nil andb orb].
     assert (Hne : toks <> []).
     { intro E. apply (parse_nil_iff (c0 :: p0) toks Pp) in E. discriminate. }
@@ -268,6 +268,6 @@ Proof.
   destruct pstr as [|c0 p0].
   - assert (toks = []) by (apply (parse_nil_iff [] toks Pp); reflexivity). subst toks.
     destruct (dup_value v0 Hv Hs) as (d & Ed & Eq). rewrite Ed. cbn [finish_add bind].
-    do 2 eexists. split; [reflexivity|]. cbn. split; [reflexivity|]. apply doc_eq_set_key. exact Eq.
+    do 2 eexists. split; [reflexivity|]. cbn. split; [reflexivity|]. apply doc_eq_unnamed. exact Eq.
   - apply (add_tail 6 doc p v0 (c0 :: p0) toks); try assumption. discriminate.
 Qed.
